@@ -248,7 +248,7 @@ class BSplines():
                 self._integrals[:] = dx
                 self._integrals[n:] = 0
             else:
-                self._integrals[d:-d] = dx
+                self._integrals[:] = dx
                 values = np.empty(d+2)
                 knots = np.linspace(xmin, xmin+dx*11, 12)
                 test_pt = xmin + 4*dx
@@ -257,8 +257,10 @@ class BSplines():
 
                 for i in range(3):
                     step = dx*(1 - sum(values[:3-i]))
-                    self._integrals[i] = step
-                    self._integrals[-i-1] = step
+                    # Remove the part of the function outside each boundary
+                    # (with fewer than 3 cells a function is cut at both ends)
+                    self._integrals[i] += step - dx
+                    self._integrals[-i-1] += step - dx
         else:
             knots = np.array([self.knots[0], *self.knots, self.knots[-1]])
             values = np.empty(d+2)
